@@ -300,5 +300,5 @@ def check(ctx):
                 ctx.ob("S6", "stored packet patched only at byte 0 with dup<<3 (%s)" % e.func.split(".")[-1], ok, where=where(e), function=e.func,
                        construct="%s/patch" % e.func, nontrivial=False,
                        msg="already-encoded packet modified at index %s with %s %s" % (show(e.a["key"]), e.a["op"], show(e.a["val"])))
-    ctx.floor("DUP patch events", npatch, 8)
+    ctx.floor("DUP patch events", npatch, 2)
     ctx.count("packet_types", n)
